@@ -9,6 +9,8 @@
     field  := T x<name> <ty> | B x<name>
 -/
 import Varlink.Gen.View
+import Varlink.Gen.Check
+import Varlink.Gen.Domain
 import Driver.Proto
 namespace Driver.Gen
 open Varlink Varlink.Idl Varlink.Gen Driver
@@ -149,7 +151,114 @@ def cmdGenText : P String := do
   | .ok s => pure s!"T {encB s}"
   | .crash => pure "CRASH"
 
+/-! ## the verdict -/
+
+mutual
+partial def tyKinds : Ty → List Nat
+  | .bool => [0] | .int => [1] | .float => [2] | .string => [3] | .object => [4]
+  | .named _ => [5]
+  | .maybe t => 6 :: tyKinds t
+  | .array t => 7 :: tyKinds t
+  | .map t => 8 :: tyKinds t
+  | .struct fs => 9 :: fieldsKinds fs
+  | .enum _ => [10]
+partial def fieldsKinds : Fields → List Nat
+  | .nil => []
+  | .typed _ t r => tyKinds t ++ fieldsKinds r
+  | .bare _ r => fieldsKinds r
+end
+
+def distinctKinds (t : Idl) : Nat :=
+  ((t.members.map fun m => (m.types.map tyKinds).flatten).flatten).eraseDups.length
+
+def bstr (b : Bytes) : String := String.ofList (b.map fun c => Char.ofNat c.toNat)
+
+/-- `gen x<tag> <idl> | <real> x<outfile> <fmt> <texteq> <twice> x<modeltext> <modelcrash> <compile> x<class> x<msg> <probe> x<name> x<desc> x<summary>` -/
+def cmdGen : P String := do
+  let tag ← bytes
+  let t ← idlP
+  expect "|"
+  let real ← tok
+  let outFile ← bytes
+  let fmtState ← tok
+  let texteq ← tok
+  let twice ← bool
+  let modelText ← bytes
+  let modelCrash ← bool
+  let compile ← tok
+  let ccls ← bytes
+  let _cmsg ← bytes
+  let probe ← tok
+  let pname ← bytes
+  let pdesc ← bytes
+  let summary ← bytes
+  let mo := genTextO t
+  let mf := genFile t
+  let dom := Domain t
+  let kdf := KnownDefectFree t
+  let kinds := distinctKinds t
+  let domS := match outsideBecause t with | none => "in" | some r => s!"out:{r}"
+  let wf : Option Bool := mf.map wellFormed
+  let wfS := match mf with
+    | none => "crash"
+    | some f => match firstFailure f with | none => "ok" | some r => s!"no:{r}"
+  let feats := s!"nt={if kinds ≥ 2 then 1 else 0} src={bstr tag} dom={domS} kdf={if kdf then 1 else 0} model={wfS} real={real} compile={compile} probe={probe} members={t.members.length} kinds={kinds}"
+  -- harness and driver must talk about the same model text
+  match mo with
+  | none => if !modelCrash then return s!"DIFF C07 harness-driver-desync {feats}"
+  | some s => if modelCrash || s != modelText then return s!"DIFF C07 harness-driver-desync {feats}"
+  if mo.isSome != mf.isSome then return s!"DIFF C07 view-and-text-disagree-on-crash {feats}"
+  if !twice then return s!"DIFF C07 nondeterministic-output {feats}"
+  -- model against the real generator
+  match mf with
+  | none =>
+    if real != "crash" then return s!"DIFF C07 model-mismatch:model-crash-real-{real} {feats}"
+  | some f =>
+    if real == "crash" then return s!"DIFF C07 model-mismatch:real-crash-model-ok {feats}"
+    if real != "ok" && real != "err" then return s!"DIFF C07 generator-{real} {feats}"
+    if fmtState == "err" && real == "ok" then return s!"DIFF C07 model-mismatch:model-text-does-not-format {feats}"
+    if fmtState == "ok" && real == "err" then return s!"DIFF C07 model-mismatch:real-error-but-model-text-formats {feats}"
+    if real == "ok" then
+      if texteq != "1" then return s!"DIFF C07 model-mismatch:text-differs {feats}"
+      if outFile != f.pkg ++ str ".go" then return s!"DIFF C07 model-mismatch:output-file-name {feats}"
+      let mine := renderFile f
+      if mine != summary then return s!"DIFF C07 model-mismatch:view-differs-at-{firstDiffLine mine summary} {feats}"
+    -- the compiler is the ground truth for wellFormed, both directions
+    if compile == "ok" && wf == some false then
+      return s!"DIFF C07 model-rejects-but-compiles:{(firstFailure f).getD "?"} {feats}"
+    if compile == "fail" && wf == some true then
+      return s!"DIFF C07 model-wellformed-but-compiler-rejects-{bstr ccls} {feats}"
+    if probe == "ok" then
+      if pname != t.name then return s!"DIFF C07 reports-other-name {feats}"
+      if pdesc != t.description ++ [10] then return s!"DIFF C07 reports-other-description {feats}"
+    -- what the theorems promise must hold at run time too
+    if dom && kdf && wf != some true then return s!"DIFF C07 theorem-contradicted:wellformed {feats}"
+  -- the property itself, on the observation
+  if dom then
+    if real == "crash" then return s!"DIFF C07 crash-in-domain {feats}"
+    if real == "err" then
+      if goKeywords.contains (pkgName t.name) then return s!"DIFF C07 generator-error-keyword-package {feats}"
+      if !placeholderSafe t then return s!"DIFF C07 generator-error-imports-placeholder-in-doc {feats}"
+      return s!"DIFF C07 generator-error-in-domain {feats}"
+    if compile == "fail" then
+      if ccls == str "unused-import" then return s!"DIFF C07 compiler-rejects-unused-import {feats}"
+      if ccls == str "package-main" then return s!"DIFF C07 package-main-not-importable {feats}"
+      return s!"DIFF C07 compiler-rejects-in-domain-{bstr ccls} {feats}"
+    if kdf && real != "ok" then return s!"DIFF C07 theorem-contradicted:total {feats}"
+  return s!"OK {feats}"
+
+/-- `genperr x<tag> x<description> | <real>`: the real parser rejected the description; the generator must
+    report an error (exit 1), not crash -/
+def cmdGenPerr : P String := do
+  let tag ← bytes
+  let _d ← bytes
+  expect "|"
+  let real ← tok
+  let feats := s!"nt=0 src={bstr tag} dom=out:parse-error real={real}"
+  if real != "err" then return s!"DIFF C07 parse-error-but-generator-{real} {feats}"
+  return s!"OK {feats}"
+
 /-- command table of this module -/
-def table : List (String × P String) := [("gentext", cmdGenText), ("gensum", cmdGenSum)]
+def table : List (String × P String) := [("gentext", cmdGenText), ("gensum", cmdGenSum), ("gen", cmdGen), ("genperr", cmdGenPerr)]
 
 end Driver.Gen
